@@ -87,6 +87,11 @@ def generate(ctx):
     text, facts = gen_claims.generate()
     ctx.write_gen("GenClaims.v", text)
     ctx.stats["claims_skeletons"] = facts.get("skeletons")
+    # model/CommuteX.v (the transactions as the code has them since 84081f2) reads GraphExt.undefer_post,
+    # whose shape follows gen/GenGraph.gen_undefer_refined: regenerate it from the repository under test
+    # (C09's fail-closed translator) so that a run against another tree does not use a stale flag
+    from translator import gen_graph
+    gen_graph.generate(ctx)
 
 
 # ---------------------------------------------------------------------------------------------
